@@ -257,6 +257,7 @@ class FitnessPredictorIsland(Island):
         return predictor_expense / (predictor_expense + island_expense)
 
     def _get_potential_hof_members(self):
+        self._evaluate_population_if_needed()
         self._hof_w_predicted_fitness.update(self.population)
         potential_members = []
         for indv_w_ped_fitness in self._hof_w_predicted_fitness:
